@@ -43,11 +43,12 @@ func (w *World) checkNode(n *Node, st *State, phase string) {
 	if w.stop {
 		return
 	}
-	if n.pol != nil && w.opt.Property == "C13" && mix64(seed^0x512e)%10 < 3 {
+	if n.pol != nil && w.opt.Property == "C13" && (phase != "undo" && mix64(seed^0x512e)%10 < 6 || phase == "undo" && mix64(seed^0x512e)%10 < 1) {
 		// the predicted size must match what WriteTo produces in any state, not only
-		// when a snapshot happens to be taken (asked after a seeded 30 % of the
-		// events, so that both "asked in every state" and "asked again only after
-		// several changes" occur: a stale answer needs the second)
+		// when a snapshot happens to be taken (asked after a seeded 60 % of the
+		// forward events and 10 % of the undo steps, so that "asked, not asked while
+		// the forest goes back and takes another branch, asked again" is common: a
+		// stale cached answer needs exactly that)
 		w.count("serialize_size")
 		var sz int
 		var cnt int64
